@@ -352,6 +352,9 @@ def solve_main(objfun, x0, argsf, xl, xu, projections, npt, rhobeg, rhoend, maxf
                 # In some instances, gopt can have nan/inf values -- this ultimately calls a safety step and is generally fine
                 # but we need to set a value for tau nonetheless
                 tau = 1.0
+            if not tau > 0.0:
+                # zero (or NaN) criticality measure: the radius update divides by tau, so keep the unregularised factor
+                tau = 1.0
         
         if do_logging:
             module_logger.debug("Trust region step is d = " + str(d))
